@@ -136,6 +136,26 @@ NumBlocks(ws, startPos) ==
 ReadStream(ws, startPos) ==
   ReadLoop(ws, NumBlocks(ws, startPos), startPos \div BlockSize, startPos % BlockSize, FALSE, 0, <<>>)
 
+(* The record layer alone (no files): writes of an entry on a flat stream, as *)
+(* triples <<stream position, bytes, type>>.                                 *)
+RECURSIVE FlatFrom(_, _, _, _)
+FlatFrom(pos, rest, first, acc) ==
+  LET r == Rem(pos)
+      padn == IF r < HeaderLen THEN r ELSE 0
+      acc1 == IF padn > 0 THEN Append(acc, <<pos, padn, 0>>) ELSE acc
+      p1 == pos + padn
+      plen == FrMin(rest, MaxWritable(pos))
+      last == (rest = plen)
+      acc2 == Append(acc1, <<p1, HeaderLen + plen, FType(first, last)>>)
+      p2 == p1 + HeaderLen + plen
+  IN IF last THEN [ws |-> acc2, pos |-> p2] ELSE FlatFrom(p2, rest - plen, FALSE, acc2)
+
+RECURSIVE FlatAll(_, _, _, _, _)
+FlatAll(pos, lens, i, acc, costs) ==
+  IF i > Len(lens) THEN [ws |-> acc, pos |-> pos, costs |-> costs]
+  ELSE LET s == FlatFrom(pos, lens[i], TRUE, <<>>) IN
+         FlatAll(s.pos, lens, i + 1, acc \o s.ws, Append(costs, s.pos - pos))
+
 (* Layout well-formedness of a sequence of writes (C07) *)
 LayoutWellFormed(ws) ==
   \A i \in 1..Len(ws) :
